@@ -574,7 +574,7 @@ def sEx : State :=
                  ("x", 10), ("f", 11), ("g", 12)],
     allow := [(("a", "s2"), ⟨5, .never⟩), (("b", "s1"), ⟨6, .never⟩), (("a", "s1"), ⟨7, .never⟩)],
     allowSp := [(("s2", "a"), ⟨5, .never⟩), (("s1", "b"), ⟨6, .never⟩), (("s1", "a"), ⟨7, .never⟩)],
-    version := ⟨CONTRACT_NAME, 2, 0, 0⟩ }
+    version := ⟨CONTRACT_NAME, 2, 0, 0, none⟩ }
 
 theorem sEx_nodup : NodupInv sEx :=
   ⟨by unfold AMap.NodupKeys AMap.keys; decide, by unfold AMap.NodupKeys AMap.keys; decide,
